@@ -94,7 +94,8 @@ theorem sum_allSubs_cons [AddCommMonoid α] (e : Nat) (s : List Nat) (f : List N
   congr 1
   apply List.map_congr_left
   intro t _
-  simp [Function.comp, List.map_map]
+  simp only [Function.comp, List.map_map]
+  rfl
 
 /-- every subscript of `s` is a subscript of the other modes with a coordinate of mode `n` inserted. -/
 theorem sum_allSubs_insAt [AddCommMonoid α] (s : List Nat) (n : Nat) (hn : n < s.length) (f : List Nat → α) :
@@ -212,5 +213,317 @@ theorem sum_allSubs_prod_range [CommSemiring α] (s : List Nat) (f : Nat → Nat
   · intro k h1 h2
     simp only [List.length_map, List.length_range] at h1
     simp [List.getD_eq_getElem?_getD, hjl, h1]
+
+/-! ### the Tucker Gram matrix -/
+
+/-- position `k` of a list without its `n`-th element. -/
+def skipIdx (n k : Nat) : Nat := if k < n then k else k + 1
+
+theorem getD_eraseIdx {β : Type} (l : List β) (n k : Nat) (d : β) :
+    (l.eraseIdx n).getD k d = l.getD (skipIdx n k) d := by
+  unfold skipIdx
+  simp only [List.getD_eq_getElem?_getD, List.getElem?_eraseIdx]
+  split <;> rfl
+
+theorem skipIdx_ne (n k : Nat) : skipIdx n k ≠ n := by unfold skipIdx; split <;> omega
+
+theorem skipIdx_lt (n k N : Nat) (hn : n < N) (hk : k < N - 1) : skipIdx n k < N := by
+  unfold skipIdx; split <;> omega
+
+theorem eraseIdx_congr (l₁ l₂ : List Nat) (n : Nat) (hl : l₁.length = l₂.length)
+    (h : ∀ k, k ≠ n → l₁.getD k 0 = l₂.getD k 0) : l₁.eraseIdx n = l₂.eraseIdx n := by
+  apply ext_getD (by simp [List.length_eraseIdx, hl])
+  intro k _
+  rw [getD_eraseIdx, getD_eraseIdx]
+  exact h _ (skipIdx_ne n k)
+
+section tucker
+variable [CommSemiring α] (T : Ttensor α)
+
+theorem nvecsVs_length (n : Nat) : (T.nvecsVs n).length = T.factors.length := by simp [Ttensor.nvecsVs]
+
+theorem nvecsVs_self (n : Nat) (hn : n < T.factors.length) : (T.nvecsVs n).getD n [] = T.factors.getD n [] := by
+  unfold Ttensor.nvecsVs
+  rw [getD_map_range _ _ _ _ hn]
+  simp
+
+theorem nvecsVs_ne (n k : Nat) (hk : k < T.factors.length) (hkn : k ≠ n) :
+    (T.nvecsVs n).getD k [] = gramCols (T.factors.getD k []) (T.core.shape.getD k 0) := by
+  unfold Ttensor.nvecsVs
+  rw [getD_map_range _ _ _ _ hk]
+  simp [hkn]
+
+/-- extents of `H = G.ttm(V)`: the core's, except `size` in mode `n`. -/
+theorem nvecsVs_lengths (hT : T.WFn) (n : Nat) (hn : n < T.factors.length) :
+    ((T.nvecsVs n).map List.length).length = T.core.shape.length ∧
+    ((T.nvecsVs n).map List.length).getD n 0 = (T.factors.getD n []).length ∧
+    ((T.nvecsVs n).map List.length).eraseIdx n = T.core.shape.eraseIdx n := by
+  have hlen : ((T.nvecsVs n).map List.length).length = T.core.shape.length := by
+    rw [List.length_map, nvecsVs_length, hT.len]
+  refine ⟨hlen, ?_, ?_⟩
+  · rw [getD_map (d := []) _ _ _ _ (by rw [nvecsVs_length]; exact hn), nvecsVs_self T n hn]
+  · apply eraseIdx_congr _ _ n hlen
+    intro k hkn
+    by_cases hk : k < T.factors.length
+    · rw [getD_map (d := []) _ _ _ _ (by rw [nvecsVs_length]; exact hk), nvecsVs_ne T n k hk hkn, length_gramCols]
+    · have h1 : ((T.nvecsVs n).map List.length).length ≤ k := by rw [hlen, ← hT.len]; omega
+      have h2 : T.core.shape.length ≤ k := by rw [← hT.len]; omega
+      rw [getD0_of_le _ _ h1, getD0_of_le _ _ h2]
+
+theorem ttmList_nvecsVs (hT : T.WFn) (n : Nat) (hn : n < T.factors.length) :
+    T.core.ttmList (T.nvecsVs n) = .ok (Dense.ofFn ((T.nvecsVs n).map List.length) fun i =>
+      ((allSubs T.core.shape).map fun l => vprod (T.nvecsVs n) i l * T.core.get l).sum) := by
+  unfold Dense.ttmList
+  have h1 : ((T.nvecsVs n).length != T.core.shape.length) = false := by
+    rw [nvecsVs_length, hT.len]; simp
+  have h2 : ((List.range (T.nvecsVs n).length).any fun k =>
+      ((T.nvecsVs n).getD k []).any fun row => row.length != T.core.shape.getD k 0) = false := by
+    rw [List.any_eq_false]
+    intro k hk
+    rw [nvecsVs_length] at hk
+    have hk' := List.mem_range.1 hk
+    rw [Bool.not_eq_true, List.any_eq_false]
+    intro row hrow
+    by_cases hkn : k = n
+    · subst hkn
+      rw [nvecsVs_self T k hn] at hrow
+      simp [hT.rows k hn row hrow]
+    · rw [nvecsVs_ne T n k hk' hkn] at hrow
+      simp [rows_gramCols _ _ row hrow]
+  simp only [h1, h2, Bool.false_eq_true, if_false]
+  rfl
+
+end tucker
+
+theorem Ttensor.get_eq_vprod [CommSemiring α] (T : Ttensor α) (i : List Nat) :
+    T.get i = ((allSubs T.core.shape).map fun l => T.core.get l * vprod T.factors i l).sum := rfl
+
+theorem Ttensor.shape_getD (T : Ttensor α) (k : Nat) : T.shape.getD k 0 = (T.factors.getD k []).length := by
+  unfold Ttensor.shape
+  by_cases h : k < T.factors.length
+  · rw [getD_map (d := []) _ _ _ _ h]
+  · simp [List.getD_eq_getElem?_getD, Nat.le_of_not_lt h]
+
+/-- the 2-way array of `to_tenmat(cdims=[n])`. -/
+def colMat [Zero α] (D : Dense α) (n : Nat) : Dense α :=
+  ⟨[numel (gather D.shape (complDims D.shape.length [n])), numel (gather D.shape [n])],
+    (D.transpose (complDims D.shape.length [n] ++ [n])).data⟩
+
+theorem colMat_shape0 [Zero α] (D : Dense α) (n : Nat) (hn : n < D.shape.length) :
+    (colMat D n).shape.getD 0 0 = numel (D.shape.eraseIdx n) := by
+  simp only [colMat, List.getD_cons_zero]
+  rw [gather_complDims D.shape n hn]
+
+theorem colMat_shape1 [Zero α] (D : Dense α) (n : Nat) : (colMat D n).shape.getD 1 0 = D.shape.getD n 0 := by
+  simp [colMat, numel]
+
+theorem colMat_get [Zero α] (D : Dense α) (n a c : Nat) (hn : n < D.shape.length)
+    (ha : a < D.shape.getD n 0) (hc : c < numel (D.shape.eraseIdx n)) :
+    (colMat D n).toMat.get c a = D.get (insAt (ind2sub (D.shape.eraseIdx n) c) n a) := by
+  rw [get_toMat _ c a (by rw [colMat_shape0 D n hn]; exact hc) (by rw [colMat_shape1]; exact ha)]
+  exact unfold_entry_col D n a c hn ha hc
+
+theorem nvecsGram_tucker_eq [Add α] [Mul α] [Zero α] [One α] (T : Ttensor α) (n : Nat) (hn : n < T.factors.length)
+    (H : Dense α) (hH : T.core.ttmList (T.nvecsVs n) = .ok H) (hnH : n < H.shape.length)
+    (hncs : n < T.core.shape.length) :
+    T.nvecsGram n = .ok (matMulN (transposeN (colMat H n).toMat (T.factors.getD n []).length)
+      (matMulT (colMat T.core n).toMat (T.factors.getD n [])) (T.factors.getD n []).length) := by
+  unfold Ttensor.nvecsGram
+  have hge : ¬ (n ≥ T.factors.length) := by omega
+  simp only [hge, if_false, hH, toTenmat_colmode H n hnH, toTenmat_colmode T.core n hncs]
+  rfl
+
+theorem gram_tucker [CommSemiring α] (T : Ttensor α) (hT : T.WFn) (n : Nat) (hn : n < T.factors.length) :
+    ∃ Y, T.nvecsGram n = .ok Y ∧ Y.length = T.shape.getD n 0 ∧ (∀ row ∈ Y, row.length = T.shape.getD n 0) ∧
+      ∀ a b, a < T.shape.getD n 0 → b < T.shape.getD n 0 → Y.get a b = gramSpec T.get T.shape n a b := by
+  have hN : T.core.shape.length = T.factors.length := hT.len.symm
+  have hncs : n < T.core.shape.length := by rw [hN]; exact hn
+  obtain ⟨hHl, hHn, hHe⟩ := nvecsVs_lengths T hT n hn
+  have hnH0 : n < ((T.nvecsVs n).map List.length).length := by rw [hHl]; exact hncs
+  have hY := nvecsGram_tucker_eq T n hn _ (ttmList_nvecsVs T hT n hn) hnH0 hncs
+  set Un := T.factors.getD n [] with hUn
+  have hI : T.shape.getD n 0 = Un.length := T.shape_getD n
+  have hUnrows : ∀ row ∈ Un, row.length = T.core.shape.getD n 0 := hT.rows n hn
+  set Vs := T.nvecsVs n with hVs
+  have hVsl : Vs.length = T.factors.length := nvecsVs_length T n
+  set H : Dense α := Dense.ofFn (Vs.map List.length) (fun i =>
+    ((allSubs T.core.shape).map fun l => vprod Vs i l * T.core.get l).sum) with hH
+  have hHshape : H.shape = Vs.map List.length := rfl
+  have hnH : n < H.shape.length := hnH0
+  set rest := T.core.shape.eraseIdx n with hrest
+  have hrestlen : rest.length = T.factors.length - 1 := by
+    rw [hrest, List.length_eraseIdx, hN]; simp [hn]
+  have hHrest : H.shape.eraseIdx n = rest := hHe
+  have hHn' : H.shape.getD n 0 = Un.length := hHn
+  have hDH0 : (colMat H n).shape.getD 0 0 = numel rest := by rw [colMat_shape0 H n hnH, hHrest]
+  have hDH1 : (colMat H n).shape.getD 1 0 = Un.length := by rw [colMat_shape1, hHn']
+  have hDG0 : (colMat T.core n).shape.getD 0 0 = numel rest := colMat_shape0 T.core n hncs
+  have hDG1 : (colMat T.core n).shape.getD 1 0 = T.core.shape.getD n 0 := colMat_shape1 T.core n
+  have hHnT : ∀ c a, c < numel rest → a < Un.length →
+      (colMat H n).toMat.get c a = H.get (insAt (ind2sub rest c) n a) := by
+    intro c a hc ha
+    rw [colMat_get H n a c hnH (by rw [hHn']; exact ha) (by rw [hHrest]; exact hc), hHrest]
+  have hGnT : ∀ c q, c < numel rest → q < T.core.shape.getD n 0 →
+      (colMat T.core n).toMat.get c q = T.core.get (insAt (ind2sub rest c) n q) := by
+    intro c q hc hq
+    exact colMat_get T.core n q c hncs hq hc
+  refine ⟨_, hY, ?_, ?_, ?_⟩
+  · rw [length_matMulN, length_transposeN, hI]
+  · intro row h; rw [rows_matMulN _ _ _ row h, hI]
+  · intro a b ha hb
+    rw [hI] at ha hb
+    set srest := T.shape.eraseIdx n with hsrest
+    have hsrestlen : srest.length = T.factors.length - 1 := by
+      rw [hsrest, List.length_eraseIdx, Ttensor.shape, List.length_map]; simp [hn]
+    set Gf : Nat → Nat → α := fun c q => T.core.get (insAt (ind2sub rest c) n q) with hGf
+    set Fw : Nat → Nat → α := fun c l => vprod (Vs.eraseIdx n) (ind2sub rest c) (ind2sub rest l) with hFw
+    set E : Nat → Nat → α := fun j l => vprod (T.factors.eraseIdx n) (ind2sub srest j) (ind2sub rest l) with hE
+    set u : Nat → Nat → α := fun x l => ∑ p ∈ range (T.core.shape.getD n 0), Un.get x p * Gf l p with hu
+    -- the model side, entry-wise
+    have hXl : (matMulT (colMat T.core n).toMat Un).length = numel rest := by
+      rw [length_matMulT, length_toMat, hDG0]
+    have hmodel : (matMulN (transposeN (colMat H n).toMat Un.length) (matMulT (colMat T.core n).toMat Un)
+        Un.length).get a b = ∑ c ∈ range (numel rest), H.get (insAt (ind2sub rest c) n a) * u b c := by
+      rw [get_matMulN_sum _ _ Un.length a b
+        (by intro row h; rw [rows_transposeN _ _ row h, hXl, length_toMat, hDH0])
+        (by rw [length_transposeN]; exact ha) hb, hXl]
+      apply Finset.sum_congr rfl
+      intro c hc
+      have hc' := Finset.mem_range.1 hc
+      rw [get_transposeN _ _ a c ha (by rw [length_toMat, hDH0]; exact hc'), hHnT c a hc' ha,
+        get_matMulT_sum (colMat T.core n).toMat Un (T.core.shape.getD n 0) c b
+          (by intro row h; rw [rows_toMat _ row h, hDG1]) hUnrows
+          (by rw [length_toMat, hDG0]; exact hc') hb]
+      congr 1
+      apply Finset.sum_congr rfl
+      intro q hq
+      rw [hGnT c q hc' (Finset.mem_range.1 hq), mul_comm]
+    rw [hmodel]
+    -- H through the split of mode n
+    have hHget : ∀ c, c < numel rest → H.get (insAt (ind2sub rest c) n a) =
+        ∑ l ∈ range (numel rest), u a l * Fw c l := by
+      intro c hc
+      have hcb : InBounds rest (ind2sub rest c) := ind2sub_inBounds hc
+      have hib : InBounds (Vs.map List.length) (insAt (ind2sub rest c) n a) :=
+        inBounds_insAt (by rw [hHl]; exact hncs) (by rw [hHe]; exact hcb) (by rw [hHn]; exact ha)
+      rw [hH, Dense.ofFn_get _ _ hib, sum_allSubs_insAt T.core.shape n hncs, sum_map_allSubs]
+      apply Finset.sum_congr rfl
+      intro l hl
+      rw [sum_map_range, hu, Finset.sum_mul]
+      apply Finset.sum_congr rfl
+      intro p _
+      rw [vprod_insAt Vs _ _ n a p (by rw [hVsl]; exact hn) (by rw [length_ind2sub, hVsl, hrestlen])
+        (by rw [length_ind2sub, hVsl, hrestlen]), hVs, nvecsVs_self T n hn]
+      ring
+    -- the Tucker denotation through the split of mode n
+    have hTget : ∀ j x, T.get (insAt (ind2sub srest j) n x) = ∑ l ∈ range (numel rest), u x l * E j l := by
+      intro j x
+      rw [Ttensor.get_eq_vprod, sum_allSubs_insAt T.core.shape n hncs, sum_map_allSubs]
+      apply Finset.sum_congr rfl
+      intro l _
+      rw [sum_map_range, hu, Finset.sum_mul]
+      apply Finset.sum_congr rfl
+      intro p _
+      rw [vprod_insAt T.factors _ _ n x p hn (by rw [length_ind2sub, hsrestlen])
+        (by rw [length_ind2sub, hrestlen])]
+      ring
+    -- Σ_j E j c · E j l is the product of the per-mode Gram entries
+    have hS : ∀ c l, c < numel rest → l < numel rest →
+        ∑ j ∈ range (numel srest), E j c * E j l = Fw c l := by
+      intro c l hc hl
+      have hcb := (inBounds_iff_getD rest (ind2sub rest c)).1 (ind2sub_inBounds hc)
+      have hlb := (inBounds_iff_getD rest (ind2sub rest l)).1 (ind2sub_inBounds hl)
+      have hEr : ∀ j x, E j x = ∏ k ∈ range (T.factors.length - 1),
+          ((T.factors.eraseIdx n).getD k []).get ((ind2sub srest j).getD k 0) ((ind2sub rest x).getD k 0) := by
+        intro j x
+        exact vprod_eq_prod_range _ _ _ _ (by rw [List.length_eraseIdx]; simp [hn])
+          (by rw [length_ind2sub, hsrestlen]) (by rw [length_ind2sub, hrestlen])
+      have hFr : Fw c l = ∏ k ∈ range (T.factors.length - 1),
+          ((Vs.eraseIdx n).getD k []).get ((ind2sub rest c).getD k 0) ((ind2sub rest l).getD k 0) :=
+        vprod_eq_prod_range _ _ _ _ (by rw [List.length_eraseIdx, hVsl]; simp [hn])
+          (by rw [length_ind2sub, hrestlen]) (by rw [length_ind2sub, hrestlen])
+      rw [hFr]
+      simp only [hEr, ← Finset.prod_mul_distrib]
+      rw [← sum_map_allSubs srest (fun j' => ∏ k ∈ range (T.factors.length - 1),
+        (((T.factors.eraseIdx n).getD k []).get (j'.getD k 0) ((ind2sub rest c).getD k 0) *
+          ((T.factors.eraseIdx n).getD k []).get (j'.getD k 0) ((ind2sub rest l).getD k 0)))]
+      rw [← hsrestlen, sum_allSubs_prod_range srest (fun k t =>
+        ((T.factors.eraseIdx n).getD k []).get t ((ind2sub rest c).getD k 0) *
+          ((T.factors.eraseIdx n).getD k []).get t ((ind2sub rest l).getD k 0))]
+      apply Finset.prod_congr rfl
+      intro k hk
+      have hk' : k < T.factors.length - 1 := by rw [← hsrestlen]; exact Finset.mem_range.1 hk
+      have hsk := skipIdx_lt n k T.factors.length hn hk'
+      have e1 : (T.factors.eraseIdx n).getD k [] = T.factors.getD (skipIdx n k) [] := getD_eraseIdx _ _ _ _
+      have e2 : (Vs.eraseIdx n).getD k [] =
+          gramCols (T.factors.getD (skipIdx n k) []) (T.core.shape.getD (skipIdx n k) 0) := by
+        rw [getD_eraseIdx]; exact nvecsVs_ne T n _ hsk (skipIdx_ne n k)
+      have e3 : srest.getD k 0 = (T.factors.getD (skipIdx n k) []).length := by
+        rw [hsrest, getD_eraseIdx, T.shape_getD]
+      have e4 : ∀ x, x < numel rest → (ind2sub rest x).getD k 0 < T.core.shape.getD (skipIdx n k) 0 := by
+        intro x hx
+        have := ((inBounds_iff_getD rest (ind2sub rest x)).1 (ind2sub_inBounds hx)).2 k (by rw [hrestlen]; exact hk')
+        rwa [hrest, getD_eraseIdx] at this
+      rw [e1, e2, e3, get_gramCols _ _ _ _ (e4 c hc) (e4 l hl)]
+    -- the specification side
+    unfold gramSpec
+    rw [sum_map_allSubs]
+    simp only [← hsrest, hTget]
+    calc ∑ c ∈ range (numel rest), H.get (insAt (ind2sub rest c) n a) * u b c
+        = ∑ l ∈ range (numel rest), ∑ c ∈ range (numel rest), u a l * u b c * Fw c l := by
+          rw [Finset.sum_comm]
+          apply Finset.sum_congr rfl
+          intro c hc
+          rw [hHget c (Finset.mem_range.1 hc), Finset.sum_mul]
+          apply Finset.sum_congr rfl
+          intro l _
+          ring
+      _ = ∑ l ∈ range (numel rest), ∑ c ∈ range (numel rest), ∑ j ∈ range (numel srest),
+            (u a l * E j l) * (u b c * E j c) := by
+          apply Finset.sum_congr rfl
+          intro l hl
+          apply Finset.sum_congr rfl
+          intro c hc
+          rw [← hS c l (Finset.mem_range.1 hc) (Finset.mem_range.1 hl), Finset.mul_sum]
+          apply Finset.sum_congr rfl
+          intro j _
+          ring
+      _ = ∑ j ∈ range (numel srest), (∑ l ∈ range (numel rest), u a l * E j l) *
+            (∑ c ∈ range (numel rest), u b c * E j c) := by
+          symm
+          simp only [Finset.sum_mul_sum]
+          rw [Finset.sum_comm]
+          apply Finset.sum_congr rfl
+          intro l _
+          rw [Finset.sum_comm]
+
+/-! ### all representations hand the solver the same matrix -/
+
+theorem Mat.ext_get [Zero α] {A B : Mat α} (m c : Nat) (hA : A.length = m) (hB : B.length = m)
+    (hAr : ∀ row ∈ A, row.length = c) (hBr : ∀ row ∈ B, row.length = c)
+    (h : ∀ i j, i < m → j < c → A.get i j = B.get i j) : A = B := by
+  apply List.ext_getElem (by rw [hA, hB])
+  intro i h1 h2
+  have hi : i < m := by omega
+  apply List.ext_getElem (by rw [hAr _ (List.getElem_mem h1), hBr _ (List.getElem_mem h2)])
+  intro j h3 h4
+  have hj : j < c := by rw [hAr _ (List.getElem_mem h1)] at h3; exact h3
+  have := h i j hi hj
+  simp only [Mat.get, List.getD_eq_getElem?_getD, List.getElem?_eq_getElem h1, List.getElem?_eq_getElem h2,
+    Option.getD_some, List.getElem?_eq_getElem h3, List.getElem?_eq_getElem h4] at this
+  exact this
+
+/-- two results that both are the Gram matrix of the same array are the same matrix. -/
+theorem gram_unique [Add α] [Mul α] [Zero α] {Y₁ Y₂ : Mat α} {m : Nat} (g₁ g₂ : List Nat → α) (shape : List Nat)
+    (n : Nat) (hn : n < shape.length) (hm : shape.getD n 0 = m)
+    (h₁ : Y₁.length = m ∧ (∀ row ∈ Y₁, row.length = m) ∧
+      ∀ a b, a < m → b < m → Y₁.get a b = gramSpec g₁ shape n a b)
+    (h₂ : Y₂.length = m ∧ (∀ row ∈ Y₂, row.length = m) ∧
+      ∀ a b, a < m → b < m → Y₂.get a b = gramSpec g₂ shape n a b)
+    (hd : ∀ i, InBounds shape i → g₁ i = g₂ i) : Y₁ = Y₂ := by
+  apply Mat.ext_get m m h₁.1 h₂.1 h₁.2.1 h₂.2.1
+  intro a b ha hb
+  rw [h₁.2.2 a b ha hb, h₂.2.2 a b ha hb]
+  exact gramSpec_congr g₁ g₂ shape n a b hd hn (by rw [hm]; exact ha) (by rw [hm]; exact hb)
 
 end Pyttb
